@@ -22,7 +22,7 @@ func (s *StrongestByProbabilityCriteriaOrderingResolver) Spec_OrderCriteria(
 	props *model.BiasProps,
 	listener *model.BiasListener,
 ) *model.Criteria {
-	criteria := s.WeakestByProbability.OrderCriteria(params, props, listener)
+	criteria := s.WeakestByProbability.Spec_OrderCriteria(params, props, listener)
 	criteriaCount := len(*criteria)
 	result := make(model.Criteria, criteriaCount)
 	for i, c := range *criteria {
